@@ -529,6 +529,7 @@ pub async fn flush_all_batches(connections: &mut [SrtlaConnection], conn_io: &Co
             && let Err(e) = send_connection_batch(conn, &io.socket).await
         {
             warn!("{}: periodic batch flush failed: {}", conn.label, e);
+            conn.mark_for_recovery();
         }
     }
 }
